@@ -183,6 +183,44 @@ class GModel:
     def nts(self):
         return [r.name for r in self.rules]
 
+    def nullable(self):
+        nul = set()
+        changed = True
+        while changed:
+            changed = False
+            for r in self.rules:
+                if r.name in nul:
+                    continue
+                for a in r.alts:
+                    if all(i.mult in ("?", "*") or i.sym in nul for i in a.items):
+                        nul.add(r.name)
+                        changed = True
+                        break
+        return nul
+
+    def is_cyclic(self):
+        """Does some nonterminal derive itself (A =>+ A)?"""
+        nul = self.nullable()
+        edges = {r.name: set() for r in self.rules}
+        for r in self.rules:
+            for a in r.alts:
+                for k, it in enumerate(a.items):
+                    if it.sym in self.terms:
+                        continue
+                    rest = a.items[:k] + a.items[k + 1:]
+                    if all(i.mult in ("?", "*") or i.sym in nul for i in rest):
+                        edges[r.name].add(it.sym)
+        for start in edges:
+            seen, stack = set(), list(edges[start])
+            while stack:
+                x = stack.pop()
+                if x == start:
+                    return True
+                if x not in seen:
+                    seen.add(x)
+                    stack.extend(edges.get(x, ()))
+        return False
+
     def all_lexemes(self):
         return sorted({s for t in self.terms.values() for s in t.samples})
 
